@@ -582,7 +582,12 @@ def main():
                     ck.report("C19.update-linearisation-not-exact", f"affine residual: J {mmJ}, bias {mmb}", replay)
                 if vec_close(u["post_mean"], [Fr(x_) for x_ in u["xi"]], xtol):
                     ck.report("C19.update-mean-not-map-point", "posterior mean differs from the MAP linearisation point", replay)
-                for a in range(K):
+                # (an affine constraint that misses the support of a singular prior cannot be met:
+                #  feasibility is required exactly when the model's exact posterior mean is feasible)
+                mfeas = all(abs(sum(c["A"][a][j] * q[j] for j in range(D)) + c["c"][a])
+                            <= Fr(1, 10 ** 25) * (sum(abs(c["A"][a][j] * q[j]) for j in range(D)) + abs(c["c"][a]) + 1)
+                            for a in range(K))
+                for a in range(K if mfeas else 0):
                     val = sum(float(c["A"][a][j]) * u["post_mean"][j] for j in range(D)) + float(c["c"][a])
                     sc = sum(abs(float(c["A"][a][j]) * u["post_mean"][j]) for j in range(D)) + abs(float(c["c"][a])) + 1.0
                     if abs(val) > 1e-9 * sc:
